@@ -28,6 +28,29 @@ def cases(tier, rng):
             out.append((hist(rules, [build(0, q), "(stop-after %d)" % n, "(solve-all 0)", "(solve 0)"]), "flip-solve-all"))
             if n % 3 == 0:
                 out.append((hist(rules, [build(0, q), "(stop-after %d)" % n] + ["(solve 0)"] * 4), "flip-solve"))
+    # the flag protocol of time_out.rs, every interleaving of main-thread operations and time-outs of ANY timer started
+    # so far (late, cancelled, superseded), exhaustively up to 4 steps, randomly beyond
+    def timer_seqs(n):
+        seqs = [((), 0, 0)]            # (ops, timers started, timers still held)
+        for _ in range(n):
+            nxt = []
+            for ops, st, held in seqs:
+                for o, a, b in ([("(start)", st + 1, held + 1), ("(start-query)", st, held), ("(stop)", st, held), ("(read)", st, held)] +
+                                [("(fire %d)" % k, st, held) for k in range(st)] + ([("(cancel)", st, held - 1)] if held else [])):
+                    nxt.append((ops + (o,), a, b))
+            yield from nxt
+            seqs = nxt
+    for ops, _, _ in timer_seqs(4 if tier == "quick" else 5):
+        out.append(("(timer %s)" % " ".join(ops), "timer"))
+    for _ in range(600 if tier == "quick" else 6000):
+        ops, st, held = [], 0, 0
+        for _ in range(rng.randint(5, 12)):
+            c = rng.choice(["start", "start", "fire", "fire", "fire", "cancel", "stop", "read", "start-query"])
+            if c == "fire" and st: ops.append("(fire %d)" % rng.randrange(st))
+            elif c == "cancel" and held: ops.append("(cancel)"); held -= 1
+            elif c == "start": ops.append("(start)"); st += 1; held += 1
+            elif c in ("stop", "read", "start-query"): ops.append("(%s)" % c)
+        out.append(("(timer %s)" % " ".join(ops), "timer"))
     m = 400 if tier == "quick" else 8000
     g = progs.Gen(rng)
     for _ in range(m):
@@ -45,14 +68,46 @@ RULE = ("five fixed programs (conjunction of multi-answer calls, not, recursive 
         "without a trailing timeout message is exactly the reference answers; with the message, the texts before it are a "
         "prefix of the reference answers; without a pending flip there is never a message; each solve reports the next "
         "reference answer, `No more.` or the message, and after the message only the message or `No more.`... is not "
-        "required (the query may be continued). The timer thread itself is not exercised. "
+        "required (the query may be continued). The flag protocol of time_out.rs is driven step by step through hooks: all "
+        "interleavings of start_query_timer / start_query / cancel_timer / stop_query / query_stopped with time-outs of ANY "
+        "timer started so far (late, cancelled, superseded) up to 4 steps (thorough: 5) and random ones of 5-12 steps; oracle on "
+        "the implementation's observations: the flag goes up only at stop_query or at the time-out of the current query's own, "
+        "uncancelled timer, and goes down only when a query starts. Real timer threads firing on their own are not exercised. "
         "Non-trivial = the flag is raised while the search still has answers to give.")
 
 def nontrivial(case, tag, result):
+    if tag == "timer": return "(fire" in case and " 1)" in result
     return tag.startswith("flip") and "s81.117.101.114.121.32.116.105.109.101.100" in result and ("(strs s" in result or "(str s" in result)
 
+def timer_relations(case, ires):
+    """Proofs/TimerProofs.v flag_raised_only_by / flag_stays, evaluated on the implementation's own observations"""
+    ops = parse(case)[1:]
+    obs = parse(ires)[1:]
+    flag = 0; own = None; nstarted = 0; cancelled_or_stopped = False
+    for op, o in zip(ops, obs):
+        new = int(o[3])
+        legit_up = op[0] == "stop" or (op[0] == "fire" and own is not None and int(op[1]) == own and not cancelled_or_stopped)
+        if op[0] == "start": own = nstarted; nstarted += 1; cancelled_or_stopped = False
+        elif op[0] == "start-query": own = None; cancelled_or_stopped = False
+        elif op[0] == "cancel": cancelled_or_stopped = True
+        elif op[0] == "stop": cancelled_or_stopped = True
+        if flag == 0 and new == 1 and not legit_up:
+            return "the flag was raised by %s, which is neither stop_query nor the time-out of the current query's own running timer" % " ".join(op)
+        if flag == 0 and new == 1: cancelled_or_stopped = True
+        if flag == 1 and new == 0 and op[0] not in ("start", "start-query"):
+            return "the flag went down at %s although no query was started" % " ".join(op)
+        if flag == 0 and new == 0 and legit_up and op[0] == "stop":
+            return "stop_query did not raise the flag"
+        flag = new
+    return None
+
 def relations(cases, impl, model):
-    REL_STATS.clear(); REL_STATS.update(solve_all_checked=0, solve_checked=0, reference_outside_or_unfinished=0)
+    REL_STATS.clear(); REL_STATS.update(solve_all_checked=0, solve_checked=0, reference_outside_or_unfinished=0, timer_histories_checked=0)
+    for (case, tag), (iout, ires) in zip(cases, impl):
+        if tag == "timer" and ires.startswith("(tobs"):
+            REL_STATS["timer_histories_checked"] += 1
+            why = timer_relations(case, ires)
+            if why: yield dict(case=case, tag=tag, why=why, implementation=dict(result=ires))
     for (case, tag), (iout, ires), (mout, mres, spec) in zip(cases, impl, model):
         if "(trace" not in spec or not ires.startswith("(obs"):
             REL_STATS["reference_outside_or_unfinished"] += 1; continue
